@@ -4,6 +4,7 @@
 package prog
 
 import (
+	"bytes"
 	"context"
 	"errors"
 	"fmt"
@@ -17,6 +18,7 @@ import (
 	connect "github.com/bufbuild/connect-go"
 	pingv1 "github.com/bufbuild/connect-go/internal/gen/connect/ping/v1"
 	"github.com/bufbuild/connect-go/verif/comp"
+	"google.golang.org/protobuf/encoding/protowire"
 	"google.golang.org/protobuf/proto"
 	"google.golang.org/protobuf/types/known/anypb"
 	"google.golang.org/protobuf/types/known/durationpb"
@@ -102,6 +104,18 @@ type Msg struct {
 	TSeed int `json:"tseed"`
 	// Bad: the text is not valid UTF-8, so no codec can marshal the message
 	Bad bool `json:"bad,omitempty"`
+	// Unk: the message carries a field the receiver's schema does not know
+	// (field 99, Unk bytes): content as well, for the binary codec
+	Unk int `json:"unk,omitempty"`
+}
+
+// Unknown returns the wire bytes of the message's unknown field (nil if none).
+func (m Msg) Unknown() []byte {
+	if m.Unk <= 0 {
+		return nil
+	}
+	out := protowire.AppendTag(nil, 99, protowire.BytesType)
+	return protowire.AppendBytes(out, bytes.Repeat([]byte{'u'}, m.Unk))
 }
 
 const alphabet = "abcdefghijklmnopqrstuvwxyzABCDEFGHIJKLMNOPQRSTUVWXYZ0123456789"
@@ -132,26 +146,48 @@ func (m Msg) Text() string {
 
 func (m Msg) Zero() bool { return m.N == 0 && m.TLen <= 0 }
 
-func (m Msg) Req() *pingv1.PingRequest  { return &pingv1.PingRequest{Number: m.N, Text: m.Text()} }
-func (m Msg) Res() *pingv1.PingResponse { return &pingv1.PingResponse{Number: m.N, Text: m.Text()} }
+func (m Msg) Req() *pingv1.PingRequest {
+	r := &pingv1.PingRequest{Number: m.N, Text: m.Text()}
+	if u := m.Unknown(); u != nil {
+		r.ProtoReflect().SetUnknown(u)
+	}
+	return r
+}
+
+func (m Msg) Res() *pingv1.PingResponse {
+	r := &pingv1.PingResponse{Number: m.N, Text: m.Text()}
+	if u := m.Unknown(); u != nil {
+		r.ProtoReflect().SetUnknown(u)
+	}
+	return r
+}
 
 // Obs is an observed message (number + full text).
 type Obs struct {
 	N int64
 	T string
+	U string // unknown fields, raw
 }
 
-func (o Obs) Equal(m Msg) bool { return o.N == m.N && o.T == m.Text() }
+func (o Obs) Equal(m Msg) bool { return o.N == m.N && o.T == m.Text() && o.U == string(m.Unknown()) }
 func (o Obs) String() string {
 	t := o.T
 	if len(t) > 24 {
 		t = fmt.Sprintf("%s…(%d)", t[:24], len(t))
 	}
+	if o.U != "" {
+		return fmt.Sprintf("{N:%d T:%q +%d bytes of unknown fields}", o.N, t, len(o.U))
+	}
 	return fmt.Sprintf("{N:%d T:%q}", o.N, t)
 }
 
-func ObsReq(r *pingv1.PingRequest) Obs  { return Obs{N: r.GetNumber(), T: r.GetText()} }
-func ObsRes(r *pingv1.PingResponse) Obs { return Obs{N: r.GetNumber(), T: r.GetText()} }
+func ObsReq(r *pingv1.PingRequest) Obs {
+	return Obs{N: r.GetNumber(), T: r.GetText(), U: string(r.ProtoReflect().GetUnknown())}
+}
+
+func ObsRes(r *pingv1.PingResponse) Obs {
+	return Obs{N: r.GetNumber(), T: r.GetText(), U: string(r.ProtoReflect().GetUnknown())}
+}
 
 // KV is an ordered header multimap entry.
 type KV struct {
